@@ -69,6 +69,11 @@ func shrinkW4C(raw json.RawMessage) []json.RawMessage {
 		c.ConsumerStops = false
 		out = append(out, mustJSON(c))
 	}
+	if o.CancelAtOp > 0 {
+		c := clone()
+		c.CancelAtOp = 0
+		out = append(out, mustJSON(c))
+	}
 	return out
 }
 
@@ -97,6 +102,9 @@ type w4cOps struct {
 	// ConsumerStops: the consumer stops taking notifications the moment the application shuts down (as Manager.Run
 	// does: it selects on the context as well); the watcher has to stop all the same
 	ConsumerStops bool `json:"consumer_stops,omitempty"`
+	// CancelAtOp: the application is shut down right after this user operation (index+1; 0 = not used), in the same
+	// instant: the watcher is then somewhere in the middle of handling that operation's events
+	CancelAtOp int `json:"cancel_at_op,omitempty"`
 }
 
 func isToml(name string) bool { return strings.HasSuffix(strings.ToLower(name), ".toml") }
@@ -104,7 +112,7 @@ func isToml(name string) bool { return strings.HasSuffix(strings.ToLower(name), 
 func genW4C(r *simrt.Rng) *w4cOps {
 	o := &w4cOps{CancelMs: -1}
 	if r.Chance(0.5) {
-		o.ConsumerUs = []int{100, 5000, 50000, 400000}[r.Intn(4)]
+		o.ConsumerUs = []int{100, 5000, 50000, 400000, 1500000, 4000000}[r.Intn(6)]
 	}
 	o.Reload = r.Chance(0.5)
 	if r.Chance(0.3) {
@@ -133,6 +141,9 @@ func genW4C(r *simrt.Rng) *w4cOps {
 		if o.CancelMs < 0 && r.Chance(0.7) {
 			o.CancelMs = r.Intn(300)
 		}
+	}
+	if o.CancelMs < 0 && r.Chance(0.35) {
+		o.CancelAtOp = 1 + r.Intn(len(o.Ops))
 	}
 	return o
 }
@@ -279,6 +290,7 @@ func runW4C19(t *testing.T, job *Job, seed uint64, rp *Replay) RunOut {
 			}
 		})
 		userDone := false
+		cancelledByUser := false
 		simrt.Go("user", func() {
 			fsys.MarkUserTask()
 			for i, op := range ops.Ops {
@@ -362,6 +374,14 @@ func runW4C19(t *testing.T, job *Job, seed uint64, rp *Replay) RunOut {
 				case "nested":
 					simfs.WriteFile(fourDirs[op.Dir]+"/nested/deep.toml", data, 0o644)
 				}
+				if ops.CancelAtOp == i+1 {
+					mu.Lock()
+					cancelAt = simrt.Now()
+					shutDown = true
+					cancelledByUser = true
+					mu.Unlock()
+					cancel()
+				}
 			}
 			mu.Lock()
 			userDone = true
@@ -381,9 +401,11 @@ func runW4C19(t *testing.T, job *Job, seed uint64, rp *Replay) RunOut {
 			cancelled = true
 		}
 		// settle: until the user is done and nothing arrives any more
-		deadline := simrt.Now() + 30*time.Second
+		deadline := simrt.Now() + 30*time.Second + time.Duration(len(ops.Ops)*2*ops.ConsumerUs)*time.Microsecond
 		last, stable := -1, 0
-		for simrt.Now() < deadline && stable < 5 {
+		// a consumer that is busy for a while per notification has not seen the pending one yet
+		need := 5 + ops.ConsumerUs/100000
+		for simrt.Now() < deadline && stable < need {
 			simrt.Sleep(100 * time.Millisecond)
 			mu.Lock()
 			snap := len(notes)*3 + tomlWriteCalls
@@ -450,6 +472,9 @@ func runW4C19(t *testing.T, job *Job, seed uint64, rp *Replay) RunOut {
 		if nn > 0 {
 			lastNote = notes[nn-1].step
 		}
+		mu.Unlock()
+		mu.Lock()
+		cancelled = cancelled || cancelledByUser
 		mu.Unlock()
 		if !cancelled {
 			if tomlWriteCalls == 0 && nn > 0 {
